@@ -443,6 +443,16 @@ func (c *EvalCtx) localName(name string) (tv, bool) {
 			}
 		}
 	}
+	// variables living in allocated cells (address-taken or captured by closures)
+	for _, b := range fr.fn.Blocks {
+		for _, in := range b.Instrs {
+			if a, ok := in.(*ssa.Alloc); ok && a.Comment == name {
+				if val, ok := st.vals[a]; ok {
+					return c.loadPtr(val, a.Type().(*types.Pointer).Elem()), true
+				}
+			}
+		}
+	}
 	if fr.dbg == nil {
 		fr.dbg = debugNames(fr.fn)
 	}
@@ -795,6 +805,18 @@ func (c *EvalCtx) call(e *ast.CallExpr) tv {
 			i := c.asTerm(c.eval(e.Args[1]))
 			v := c.asTerm(c.eval(e.Args[2]))
 			return tv{p.Store(m, i, v), nil}
+		case "bytes1":
+			// bytes1(x): the abstract byte string of the one-element slice []byte{x}
+			x := c.asTerm(c.eval(e.Args[0]))
+			arrS := p.ArraySort(IntSort, IntSort)
+			arr := p.Store(p.ConstArray(arrS, p.Int(0)), p.Int(0), x)
+			sf := ex.P.CS.Specs["bytesOf"]
+			if sf == nil {
+				c.errf("bytes1 needs the spec function bytesOf")
+			}
+			return tv{ex.specApp(sf, []*Term{arr, p.Int(1)}, c.pkgPath), nil}
+		case "ab":
+			return tv{ex.bytesOfAbstract(c.asTerm(c.eval(e.Args[0]))), nil}
 		case "hashOf":
 			a := c.asTerm(c.eval(e.Args[0]))
 			g := p.Func("hashOf", []*Sort{p.ArraySort(IntSort, IntSort)}, ex.tm.HashS)
